@@ -151,7 +151,9 @@ func NewTemplateGenerator(
 			log.Err(err).Msg("failed to get current working directory")
 			return nil, stackerr.NewStackErr(err)
 		}
-		outPkgFSPath = pathlib.NewPath(cwd).JoinPath(outPkgFSPath)
+		// Clean: for the directory "." the joined path would end in "/." and
+		// never be equal to the directory of the source package.
+		outPkgFSPath = pathlib.NewPath(cwd).JoinPath(outPkgFSPath).Clean()
 	}
 	outPkgPath, err := findPkgPath(outPkgFSPath)
 	if err != nil {
